@@ -12,6 +12,12 @@
 //!   `Partial` (the peer writes the beginning of a request - 10 bytes, 90 bytes, head without the empty line, head
 //!   without body, head and half the body - or CRLF CR, or a lone CR, and stops; the next `Msg` writes the rest, a
 //!   further `Partial` half of the rest), `KeepAlive` (a whole CRLF CRLF).
+//!   An inbound message carries the time the application works on it (`busy`, 0 / 1 / 100 ms / 5 s / 16 s / 32 s +3 ms /
+//!   40 s): the layer that takes the request awaits that long inside `Layer::receive`, holding the request and with
+//!   it a handle to the connection, before it lets go of the request (or hands it to the part of the application
+//!   that keeps the handle). The history goes on meanwhile: peer close, garbage, release of the application's own
+//!   handles, further messages (worked on concurrently), fragments, selections, the 32 s timer all fall into the
+//!   time a request is being worked on, and the layer's release can be the last use of the connection.
 //!   Ops that share an instant are executed back to back, the stack runs only after the last of them, so a
 //!   pick-up, a release, a message, a close can all be pending when the task is polled next. In particular a
 //!   `Select` / `Touch` that shares its instant with the release of the last handle finds the connection with a
@@ -28,7 +34,10 @@
 //!   pick-up and released, enumerated x seeds), `fragment` (beginning of a message / half or whole keep-alive on a
 //!   silent accepted, a released accepted, a released outbound, a still referenced connection x arrival instant x
 //!   {nothing, the rest, another piece, peer close, pick-up held across the idle period, selection after the idle
-//!   period}, enumerated), `history` (random histories over all ops).
+//!   period}, enumerated), `busy` (the application works 5 s / 40 s on a request x outbound / accepted x own handle
+//!   held or not x keep x 10 events 100 ms after the arrival x {selection while still busy, selection after the work,
+//!   message + selection 32 s -3/+3 ms after the layer let go, nothing}, enumerated), `history` (random histories
+//!   over all ops).
 //!
 //! Oracle (lifecycle reference model, written from the property statement, never asks ezk what it expects)
 //! * registered while referenced; every message written while the connection is alive is delivered exactly once,
@@ -45,6 +54,12 @@
 //!   accepted 32 s after the last use (last release / last whole message) or 32 s after any later arrival of such
 //!   bytes; later than the last of these instants the connection has to be closed, unregistered and not selectable.
 //!   A message completed while the connection is certainly alive is delivered like any other.
+//! * a request the application layer is working on is a handle like any other (it contains one): the connection is
+//!   referenced from the instant the layer got the request (read back from the layer, never predicted) until the
+//!   layer lets go of it that many ms later; if that was the last reference the idle period starts there. A peer
+//!   close / framing error meanwhile unregisters the connection at once all the same (a selection to the remote has
+//!   to connect anew although the application still holds the request), other messages are delivered, the
+//!   application's own handles can come and go.
 //!
 //! Not asserted
 //! * anything within 2 ms of a 32 s edge (tie); any history with an op between the earliest and the latest accepted
@@ -55,9 +70,11 @@
 //!   the instant of the release the old connection idles for 32 s: selections to the remote are left out meanwhile);
 //!   garbage behind a fragment (would be read as part of the message: the op is left out);
 //!   what a `Probe` returns (error, new or pooled side connection) and the lifetime of side connections;
-//!   TLS connections (only a non-secure factory is registered, so a sips: target has no transport).
+//!   TLS connections (only a non-secure factory is registered, so a sips: target has no transport);
+//!   WHEN a message is handed to the layers (the model takes the instant the layer was called, so a stack that hands
+//!   a message on late is judged with the references as they really were); whether the end of the application's work
+//!   or an op of the same ms comes first (both orders accepted, like a release in the instant of a selection).
 
-use super::c06::ChannelLayer;
 use crate::engine::*;
 use crate::world::stream::*;
 use crate::world::*;
@@ -111,8 +128,13 @@ pub enum Op {
     Drop,
     /// application drops every handle it holds
     DropAll,
-    /// peer sends a request on the connection; the application keeps the handle that comes with it (or not)
-    Msg { keep: bool },
+    /// peer sends a request on the connection; the application (the layer that takes the request) works on it for
+    /// `busy` ms inside `Layer::receive` (0 = hands it on at once) and then keeps the handle that comes with it (or not)
+    Msg {
+        keep: bool,
+        #[serde(default)]
+        busy: u64,
+    },
     /// peer closes its side
     PeerClose,
     /// peer sends bytes that are not SIP
@@ -190,13 +212,20 @@ pub struct Case {
 
 const GAPS: &[u64] = &[0, 0, 0, 0, 1, 1, 100, 16_000, 16_000, IDLE - 3, IDLE - 1, IDLE + 1, IDLE + 3, IDLE - 1, IDLE + 1, 2 * IDLE];
 
+/// how long the application works on a request inside `Layer::receive` (ms): on the grid of the gaps, so that the end
+/// of the work falls on / next to later ops, and longer than the idle period. The wind-down waits 96 s, enough for
+/// the longest one plus an idle period.
+const BUSY: &[u64] = &[1, 100, 100, 5_000, 16_000, 16_000, IDLE + 3, 40_000];
+const BUSY_MAX: u64 = 40_000;
+
 pub fn strategy() -> BoxedStrategy<Case> {
     let op = prop_oneof![
         2 => Just(Op::Clone),
         4 => Just(Op::Drop),
         2 => Just(Op::DropAll),
-        3 => Just(Op::Msg { keep: false }),
-        2 => Just(Op::Msg { keep: true }),
+        3 => Just(Op::Msg { keep: false, busy: 0 }),
+        2 => Just(Op::Msg { keep: true, busy: 0 }),
+        3 => (any::<bool>(), any::<u16>()).prop_map(|(keep, b)| Op::Msg { keep, busy: BUSY[pick_idx(b, BUSY.len())] }),
         1 => Just(Op::PeerClose),
         1 => Just(Op::Garbage),
         2 => Just(Op::Select),
@@ -230,18 +259,18 @@ pub fn race_cases(tier: Tier) -> Vec<Case> {
                             let mut ops = vec![];
                             if inbound {
                                 // an inbound connection gets its first handle through a message
-                                ops.push((1, Op::Msg { keep: true }));
+                                ops.push((1, Op::Msg { keep: true, busy: 0 }));
                             }
                             ops.push((lead, Op::Clone));
                             ops.push((1, Op::Drop));
                             if order == 0 {
                                 ops.push((1, Op::Drop));
-                                ops.push((0, Op::Msg { keep }));
+                                ops.push((0, Op::Msg { keep, busy: 0 }));
                             } else {
-                                ops.push((1, Op::Msg { keep }));
+                                ops.push((1, Op::Msg { keep, busy: 0 }));
                                 ops.push((0, Op::DropAll));
                             }
-                            ops.push((tail, Op::Msg { keep: false }));
+                            ops.push((tail, Op::Msg { keep: false, busy: 0 }));
                             ops.push((1, Op::Select));
                             out.push(Case { inbound, ops, rng: rng as u8 });
                         }
@@ -262,7 +291,7 @@ pub fn pickup_cases(tier: Tier) -> Vec<Case> {
     let mut out = vec![];
     let seeds = tier.pick(32u32, 256u32);
     let clusters = |keep: bool| -> Vec<Vec<Op>> {
-        let msg = Op::Msg { keep };
+        let msg = Op::Msg { keep, busy: 0 };
         let mut v = vec![
             vec![Op::Touch, msg],
             vec![msg, Op::Touch],
@@ -294,7 +323,7 @@ pub fn pickup_cases(tier: Tier) -> Vec<Case> {
                             for (i, op) in cluster.iter().enumerate() {
                                 ops.push((if i == 0 { lead } else { 0 }, *op));
                             }
-                            ops.push((tail, Op::Msg { keep: false }));
+                            ops.push((tail, Op::Msg { keep: false, busy: 0 }));
                             ops.push((1, Op::Select));
                             out.push(Case { inbound, ops, rng: rng as u8 });
                         }
@@ -323,7 +352,7 @@ pub fn probe_cases(tier: Tier) -> Vec<Case> {
                                 (false, false) => ops.push((1, Op::DropAll)),
                                 (false, true) => {}
                                 (true, false) => {}
-                                (true, true) => ops.push((1, Op::Msg { keep: true })),
+                                (true, true) => ops.push((1, Op::Msg { keep: true, busy: 0 })),
                             }
                             ops.push((lead, Op::Probe { target }));
                             for _ in 1..repeat {
@@ -351,7 +380,7 @@ pub fn probe_cases(tier: Tier) -> Vec<Case> {
 pub fn reselect_cases(tier: Tier) -> Vec<Case> {
     let mut out = vec![];
     let seeds = tier.pick(8u32, 64u32);
-    let msg = Op::Msg { keep: false };
+    let msg = Op::Msg { keep: false, busy: 0 };
     // (ops before the instant [gap 1 each], ops of the instant that release the last handle)
     let releases: Vec<(Vec<Op>, Vec<Op>)> = vec![
         (vec![], vec![Op::Drop]),
@@ -386,7 +415,7 @@ pub fn reselect_cases(tier: Tier) -> Vec<Case> {
                             }
                             // the handle is held; the connection has to stay usable
                             ops.push((IDLE + 3, msg));
-                            ops.push((tail, Op::Msg { keep: true }));
+                            ops.push((tail, Op::Msg { keep: true, busy: 0 }));
                             ops.push((1, Op::DropAll));
                             ops.push((tail, Op::Select));
                             out.push(Case { inbound, ops, rng: rng as u8 });
@@ -423,7 +452,7 @@ pub fn fragment_cases(tier: Tier) -> Vec<Case> {
                         match situation {
                             0 => ops.push((lead, *frag)),
                             1 => {
-                                ops.push((1, Op::Msg { keep: true }));
+                                ops.push((1, Op::Msg { keep: true, busy: 0 }));
                                 ops.push((100, Op::DropAll));
                                 ops.push((lead, *frag));
                             }
@@ -439,19 +468,92 @@ pub fn fragment_cases(tier: Tier) -> Vec<Case> {
                         }
                         match tail {
                             0 => {}
-                            1 => ops.push((100, Op::Msg { keep: false })),
+                            1 => ops.push((100, Op::Msg { keep: false, busy: 0 })),
                             2 => ops.push((100, *frag)),
                             3 => ops.push((100, Op::PeerClose)),
                             4 => {
                                 ops.push((100, Op::Select));
-                                ops.push((2 * IDLE, Op::Msg { keep: false }));
+                                ops.push((2 * IDLE, Op::Msg { keep: false, busy: 0 }));
                             }
                             _ => {
                                 ops.push((2 * IDLE + 100, Op::Select));
-                                ops.push((1, Op::Msg { keep: false }));
+                                ops.push((1, Op::Msg { keep: false, busy: 0 }));
                             }
                         }
                         out.push(Case { inbound, ops, rng: rng as u8 });
+                    }
+                }
+            }
+        }
+    }
+    out
+}
+
+/// the application is busy with a request that came in over the connection: the layer that takes the request awaits
+/// inside `Layer::receive` for 5 s / 40 s before it lets go of the request (or hands it to the part of the
+/// application that keeps the handle). 100 ms after the arrival something happens on the connection - nothing / peer
+/// close / garbage / the application's own handles go / another request / another request and peer close / handles go
+/// and peer close / beginning of a request / another request that is worked on concurrently / pick-up + release -
+/// and then: a selection to the same remote while the application is still busy, a selection after it has finished,
+/// a message and a selection 32 s -3/+3 ms after the application let go of the request, or nothing.
+/// Enumerated: outbound / accepted x application holds a handle of its own or not x busy time x keep x event x
+/// what follows x a few seeds.
+pub fn busy_cases(tier: Tier) -> Vec<Case> {
+    let mut out = vec![];
+    let seeds = tier.pick(4u32, 32u32);
+    let msg = Op::Msg { keep: false, busy: 0 };
+    let events: Vec<Vec<Op>> = vec![
+        vec![],
+        vec![Op::PeerClose],
+        vec![Op::Garbage],
+        vec![Op::DropAll],
+        vec![msg],
+        vec![msg, Op::PeerClose],
+        vec![Op::DropAll, Op::PeerClose],
+        vec![Op::Partial { kind: Frag::HeadMid }],
+        vec![Op::Msg { keep: false, busy: 5_000 }],
+        vec![Op::Touch],
+    ];
+    for inbound in [false, true] {
+        for app_handle in [true, false] {
+            for busy in [5_000u64, BUSY_MAX] {
+                for keep in [false, true] {
+                    for event in &events {
+                        for follow in 0..5 {
+                            for rng in 0..seeds {
+                                // instants relative to the arrival of the request
+                                let mut at: Vec<(u64, Op)> = vec![(0, Op::Msg { keep, busy })];
+                                for op in event {
+                                    at.push((100, *op));
+                                }
+                                match follow {
+                                    0 => at.push((1_100, Op::Select)),
+                                    1 => at.push((busy + 1_000, Op::Select)),
+                                    2 => {
+                                        at.push((busy + IDLE - 3, msg));
+                                        at.push((busy + IDLE - 2, Op::Select));
+                                    }
+                                    3 => {
+                                        at.push((busy + IDLE + 3, msg));
+                                        at.push((busy + IDLE + 4, Op::Select));
+                                    }
+                                    // the history ends here (registration judged right after the event, expiry in the wind-down)
+                                    _ => {}
+                                }
+                                let mut ops = vec![];
+                                match (inbound, app_handle) {
+                                    (false, false) => ops.push((1, Op::DropAll)),
+                                    (true, true) => ops.push((1, Op::Msg { keep: true, busy: 0 })),
+                                    _ => {}
+                                }
+                                let mut prev = 0;
+                                for (i, (o, op)) in at.iter().enumerate() {
+                                    ops.push((if i == 0 { 100 } else { o - prev }, *op));
+                                    prev = *o;
+                                }
+                                out.push(Case { inbound, ops, rng: rng as u8 });
+                            }
+                        }
                     }
                 }
             }
@@ -513,6 +615,23 @@ struct Model {
     /// until this instant (once the stack ran: `left_pending_until` before that)
     left_outbound_until: Option<u64>,
     left_pending_until: Option<u64>,
+    /// requests of the current connection the application is working on inside `Layer::receive`: each of them holds
+    /// the handle that came with it until `done_at` (counted in `handles`)
+    inflight: Vec<Inflight>,
+    /// requests the layer has finished and hands to the part of the application that keeps the handle, not yet
+    /// picked up there (counted in `handles`; only in the very instant the work ends)
+    handing_over: u32,
+    /// since the stack last ran: longest working time among the requests written to the live connection
+    unsettled_busy: u64,
+    /// instant the delivery of a request began (read back from the application layer)
+    start_at: std::collections::HashMap<String, u64>,
+}
+
+#[derive(Debug, Clone)]
+struct Inflight {
+    done_at: u64,
+    /// the layer hands the request to the part of the application that keeps the handle (else it lets go of it)
+    keep: bool,
 }
 
 impl Model {
@@ -595,6 +714,169 @@ pub struct Facts {
     pub garbage_skipped: bool,
     pub close_with_fragment: bool,
     pub select_with_fragment: bool,
+    /// the application layer worked on a request of the live connection for a while
+    pub busy_started: bool,
+    pub busy_handed_over: bool,
+    /// ... and meanwhile:
+    pub close_while_busy: bool,
+    pub garbage_while_busy: bool,
+    pub app_handles_gone_while_busy: bool,
+    pub message_while_busy: bool,
+    pub fragment_while_busy: bool,
+    pub select_while_busy: bool,
+    pub select_closed_while_busy: bool,
+    /// the request the layer let go of was the last reference: the idle period starts there
+    pub idle_starts_at_layer_release: bool,
+}
+
+/// what the application knows about the requests it is going to get (written by the test task when the peer sends
+/// them) and what its layer did with them (read back by the test task)
+#[derive(Default)]
+pub struct AppState {
+    busy_of: std::collections::HashMap<String, u64>,
+    keep_of: std::collections::HashMap<String, bool>,
+    /// generation of the connection the request was written to
+    gen_of: std::collections::HashMap<String, u32>,
+    /// generation of the connection the history currently talks about
+    current_gen: u32,
+    /// the history is over: the application lets go of everything it still works on
+    winding_down: bool,
+    /// (instant, X-Seq) of every `Layer::receive` call, in call order; taken out by the test task
+    started: Vec<(u64, String)>,
+}
+
+/// The application: takes every request. A request with working time 0 is handed to the test task at once (which
+/// keeps or releases the handle that comes with it); otherwise the layer works on it - awaits inside
+/// `Layer::receive`, holding the request and with it a handle to the connection - and afterwards hands it to the
+/// test task (keep, and the connection is still the one the history talks about) or lets go of it right there.
+pub struct BusyLayer {
+    pub clock: Clock,
+    pub app: Arc<parking_lot::Mutex<AppState>>,
+    pub tx: mpsc::UnboundedSender<IncomingRequest>,
+}
+
+fn x_seq(req: &IncomingRequest) -> String {
+    req.headers
+        .iter()
+        .find(|(n, _)| n.as_print_str().eq_ignore_ascii_case("x-seq"))
+        .map(|(_, v)| v.to_string())
+        .unwrap_or_default()
+}
+
+#[async_trait::async_trait]
+impl sip_core::Layer for BusyLayer {
+    fn name(&self) -> &'static str {
+        "c15-app"
+    }
+    async fn receive(&self, _endpoint: &sip_core::Endpoint, request: sip_core::MayTake<'_, IncomingRequest>) {
+        let req = request.take();
+        let marker = x_seq(&req);
+        let (busy, over) = {
+            let mut a = self.app.lock();
+            a.started.push((self.clock.now_ms(), marker.clone()));
+            (a.busy_of.get(&marker).copied().unwrap_or(0), a.winding_down)
+        };
+        if busy == 0 {
+            // (nobody takes requests from the channel once the history is over)
+            if !over {
+                let _ = self.tx.send(req);
+            }
+            return;
+        }
+        tokio::time::sleep(std::time::Duration::from_millis(busy)).await;
+        let hand_over = {
+            let a = self.app.lock();
+            a.keep_of.get(&marker).copied().unwrap_or(false) && a.gen_of.get(&marker) == Some(&a.current_gen) && !a.winding_down
+        };
+        if hand_over {
+            let _ = self.tx.send(req);
+        } else {
+            drop(req);
+        }
+    }
+}
+
+/// bring the model up to date at instant `t`: deliveries that began, work the application layer finished up to `t`
+/// (in the order it finished), requests handed to the test task (kept or released right here)
+#[allow(clippy::too_many_arguments)]
+fn absorb(
+    t: u64,
+    app: &parking_lot::Mutex<AppState>,
+    rx: &mut mpsc::UnboundedReceiver<IncomingRequest>,
+    m: &mut Model,
+    handles: &mut Vec<TpHandle>,
+    delivered: &mut Vec<(u64, String, u32)>,
+    facts: &mut Facts,
+) {
+    let started = std::mem::take(&mut app.lock().started);
+    for (at, marker) in started {
+        delivered.push((at, marker.clone(), m.generation));
+        let (busy, keep, gen) = {
+            let a = app.lock();
+            (a.busy_of.get(&marker).copied().unwrap_or(0), a.keep_of.get(&marker).copied().unwrap_or(false), a.gen_of.get(&marker).copied())
+        };
+        m.start_at.insert(marker, at);
+        if busy > 0 && gen == Some(m.generation) {
+            // the layer holds the request, and with it a handle, from now on
+            m.inflight.push(Inflight { done_at: at + busy, keep });
+            m.handles += 1;
+            m.unused_since = None;
+            if m.alive {
+                facts.busy_started = true;
+            }
+        }
+    }
+    m.inflight.sort_by_key(|f| f.done_at);
+    while m.inflight.first().map_or(false, |f| f.done_at <= t) {
+        let f = m.inflight.remove(0);
+        if f.keep {
+            // the reference passes to the test task (below, or after the next scheduling point)
+            m.handing_over += 1;
+            continue;
+        }
+        m.handles = m.handles.saturating_sub(1);
+        if m.handles == 0 {
+            m.unused_since = Some(f.done_at);
+            m.frag_times.clear();
+            if f.done_at == t {
+                // in this very instant: the stack may not have run since
+                m.dirty_release = true;
+            }
+            if m.alive {
+                facts.idle_starts_at_layer_release = true;
+            }
+        }
+    }
+    while let Ok(req) = rx.try_recv() {
+        let marker = x_seq(&req);
+        let (busy, keep, gen) = {
+            let a = app.lock();
+            (a.busy_of.get(&marker).copied().unwrap_or(0), a.keep_of.get(&marker).copied().unwrap_or(false), a.gen_of.get(&marker).copied())
+        };
+        if gen != Some(m.generation) {
+            // arrived on a connection the history has moved away from
+            drop(req);
+            continue;
+        }
+        if busy > 0 {
+            // handed over by the layer after its work: the reference it held is the application's now
+            m.handing_over = m.handing_over.saturating_sub(1);
+            if m.alive {
+                handles.push(req.tp_info.transport.clone());
+                facts.busy_handed_over = true;
+            } else {
+                m.handles = m.handles.saturating_sub(1);
+            }
+        } else if keep && m.alive {
+            handles.push(req.tp_info.transport.clone());
+            m.handles += 1;
+            m.unused_since = None;
+        } else if m.alive && m.handles == 0 {
+            // traffic on an unreferenced connection restarts the idle period
+            m.unused_since = Some(m.start_at.get(&marker).copied().unwrap_or(t));
+        }
+        drop(req);
+    }
 }
 
 /// what the peer has begun to send on the connection under test
@@ -653,9 +935,11 @@ async fn peer_do(id: Option<u32>, inbound: &mut Vec<PeerConn>, probe: &FactoryPr
 }
 
 /// connections other than `main` the peer has not seen closed yet (side connections of probes, connections the
-/// history moved away from): nobody holds a handle on them, so "not closed" = still registered
-fn others_open(main: Option<u32>, inbound: &[PeerConn], probe: &FactoryProbe) -> usize {
-    let f = |p: &PeerConn| Some(p.id) != main && p.eof_at.lock().is_none();
+/// history moved away from): nobody holds a handle on them, so "not closed" = still registered. Connections the
+/// peer closed / sent garbage on (`dead`) are left out: they are not registered any more, but a request the
+/// application layer still works on can keep ezk's end open.
+fn others_open(main: Option<u32>, dead: &[u32], inbound: &[PeerConn], probe: &FactoryProbe) -> usize {
+    let f = |p: &PeerConn| Some(p.id) != main && !dead.contains(&p.id) && p.eof_at.lock().is_none();
     inbound.iter().filter(|p| f(p)).count() + probe.conns.lock().iter().filter(|p| f(p)).count()
 }
 
@@ -684,11 +968,12 @@ pub fn check(case: &Case, out: &mut CaseOut) {
         let log = WireLog::new(clock);
         let (factory, probe) = mock_factory::<false>(clock, &log);
         let (lb, dialer) = mock_listener::<false>(clock, &log, "10.0.0.1:5060");
-        let rec = Recorder::new(clock);
         let (tx, mut rx) = mpsc::unbounded_channel::<IncomingRequest>();
         let mut b = offline_builder();
         b.add_transport_factory(Arc::new(factory));
-        b.add_layer(ChannelLayer { rec: rec.clone(), tx });
+        let app: Arc<parking_lot::Mutex<AppState>> = Default::default();
+        app.lock().current_gen = 1;
+        b.add_layer(BusyLayer { clock, app: app.clone(), tx });
         use sip_core::transport::streaming::StreamingListenerBuilder;
         lb.spawn(&mut b, "10.0.0.1:5060").await.unwrap();
         let endpoint = b.build();
@@ -730,21 +1015,24 @@ pub fn check(case: &Case, out: &mut CaseOut) {
             m.generation = 1;
         }
 
-        let mut msg_gen: std::collections::HashMap<String, u32> = Default::default();
-        // does the application keep the handle that comes with the request (decided by the op that completed it)
-        let mut keep_of: std::collections::HashMap<String, bool> = Default::default();
         // what the peer has begun to send on the connection under test and not finished
         let mut pending: Option<PendingFrag> = None;
+        // connections the peer closed / sent garbage on
+        let mut dead_ids: Vec<u32> = vec![];
         let mut t = 0u64;
         let mut seq = 0;
         let n = c.ops.len();
         for (i, (gap, op)) in c.ops.iter().enumerate() {
             t += gap;
             clock.until(t).await;
+            // work the application layer finished in the meantime
+            absorb(t, &app, &mut rx, &mut m, &mut handles, &mut delivered, &mut facts);
             m.expire_if_due(t);
             if m.ambiguous {
                 break;
             }
+            // the application is working on a request that came in over the (live) connection
+            let busy_now = m.alive && (!m.inflight.is_empty() || m.unsettled_busy > 0);
             'op: {
             match op {
                 Op::Clone => {
@@ -759,16 +1047,25 @@ pub fn check(case: &Case, out: &mut CaseOut) {
                         if m.handles == 0 {
                             m.released_last(t);
                         }
+                        if handles.is_empty() && busy_now {
+                            facts.app_handles_gone_while_busy = true;
+                        }
                     }
                 }
                 Op::DropAll => {
                     if !handles.is_empty() {
                         handles.clear();
-                        m.handles = 0;
-                        m.released_last(t);
+                        // what the application layer works on keeps its handle
+                        m.handles = m.inflight.len() as u32 + m.handing_over;
+                        if m.handles == 0 {
+                            m.released_last(t);
+                        }
+                        if busy_now {
+                            facts.app_handles_gone_while_busy = true;
+                        }
                     }
                 }
-                Op::Msg { keep } => {
+                Op::Msg { keep, busy } => {
                     // a request the peer has begun is finished; after half a CRLF the rest of the CRLF and a new
                     // request go out in one piece
                     let (marker, bytes) = match pending.take() {
@@ -781,21 +1078,30 @@ pub fn check(case: &Case, out: &mut CaseOut) {
                         other => {
                             seq += 1;
                             let marker = format!("m{seq}");
-                            msg_gen.insert(marker.clone(), m.generation);
+                            app.lock().gen_of.insert(marker.clone(), m.generation);
                             let mut bytes = other.map(|p| p.rest).unwrap_or_default();
                             bytes.extend_from_slice(&options(&marker, "TCP"));
                             (marker, bytes)
                         }
                     };
-                    keep_of.insert(marker.clone(), *keep);
+                    {
+                        // what the application will do with it is decided by the op that completes the request
+                        let mut a = app.lock();
+                        a.keep_of.insert(marker.clone(), *keep);
+                        a.busy_of.insert(marker.clone(), *busy);
+                    }
                     let written = peer_do(main_id, &mut inbound_conns, &probe, PeerAct::Write(bytes)).await;
                     // the rest of this op happens after the scheduling point below
                     if m.alive {
+                        if busy_now {
+                            facts.message_while_busy = true;
+                        }
                         m.frag_pending = false;
                         m.expected_delivered.push(marker.clone());
                         if written {
                             m.msg_unsettled = true;
                             m.task_has_message = true;
+                            m.unsettled_busy = m.unsettled_busy.max(*busy);
                         }
                     }
                 }
@@ -813,7 +1119,7 @@ pub fn check(case: &Case, out: &mut CaseOut) {
                             let marker = format!("m{seq}");
                             let (now, rest, is_request) = kind.split(&marker);
                             if is_request {
-                                msg_gen.insert(marker.clone(), m.generation);
+                                app.lock().gen_of.insert(marker.clone(), m.generation);
                             }
                             pending = Some(PendingFrag { marker: is_request.then_some(marker), rest });
                             (now, false)
@@ -823,6 +1129,9 @@ pub fn check(case: &Case, out: &mut CaseOut) {
                         let written = peer_do(main_id, &mut inbound_conns, &probe, PeerAct::Write(bytes)).await;
                         if m.alive && written {
                             m.frag_pending = true;
+                            if busy_now {
+                                facts.fragment_while_busy = true;
+                            }
                             if continued {
                                 facts.fragment_continued = true;
                             }
@@ -849,9 +1158,13 @@ pub fn check(case: &Case, out: &mut CaseOut) {
                 }
                 Op::PeerClose => {
                     peer_do(main_id, &mut inbound_conns, &probe, PeerAct::Close).await;
+                    dead_ids.extend(main_id);
                     if m.alive {
                         if m.frag_pending {
                             facts.close_with_fragment = true;
+                        }
+                        if busy_now {
+                            facts.close_while_busy = true;
                         }
                         m.alive = false;
                         m.dirty_close = true;
@@ -865,7 +1178,11 @@ pub fn check(case: &Case, out: &mut CaseOut) {
                         facts.garbage_skipped = true;
                     } else {
                         peer_do(main_id, &mut inbound_conns, &probe, PeerAct::Write(b"\x01\x02 this is not sip\r\n\r\n".to_vec())).await;
+                        dead_ids.extend(main_id);
                         if m.alive {
+                            if busy_now {
+                                facts.garbage_while_busy = true;
+                            }
                             m.alive = false;
                             m.dirty_close = true;
                             m.task_has_close = true;
@@ -889,6 +1206,13 @@ pub fn check(case: &Case, out: &mut CaseOut) {
                     }
                     if m.msg_unsettled {
                         facts.select_while_message_pending = true;
+                    }
+                    if !m.inflight.is_empty() {
+                        if m.alive {
+                            facts.select_while_busy = true;
+                        } else {
+                            facts.select_closed_while_busy = true;
+                        }
                     }
                     if m.alive && m.frag_pending {
                         facts.select_with_fragment = true;
@@ -940,7 +1264,10 @@ pub fn check(case: &Case, out: &mut CaseOut) {
                                 let mut left_until = None;
                                 if let Some(id) = main_id {
                                     if m.alive {
-                                        let ends = if m.handles > 0 || m.msg_unsettled || m.unused_since.is_none() { vec![t + IDLE] } else { m.candidates() };
+                                        // requests of the old connection the application layer still works on (or is about
+                                        // to: written in this instant) are let go of when that work is done
+                                        let busy_until = m.inflight.iter().map(|f| f.done_at).chain((m.unsettled_busy > 0).then_some(t + m.unsettled_busy)).max();
+                                        let ends = if m.handles > 0 || m.msg_unsettled || m.unused_since.is_none() { vec![busy_until.map_or(t, |b| b.max(t)) + IDLE] } else { m.candidates() };
                                         if !(c.inbound && m.generation == 1) {
                                             left_until = ends.last().copied();
                                         }
@@ -958,6 +1285,10 @@ pub fn check(case: &Case, out: &mut CaseOut) {
                                     main_id = newest_main(&probe);
                                 }
                                 m.generation += 1;
+                                app.lock().current_gen = m.generation;
+                                m.inflight.clear();
+                                m.handing_over = 0;
+                                m.unsettled_busy = 0;
                                 m.alive = true;
                                 m.expect_eof = vec![];
                                 m.msg_unsettled = false;
@@ -1008,35 +1339,14 @@ pub fn check(case: &Case, out: &mut CaseOut) {
                 // let the stack run
                 settle().await;
                 m.settled();
-                // deliveries: keep or release the handle that came with each request
-                while let Ok(req) = rx.try_recv() {
-                    let marker = req
-                        .headers
-                        .iter()
-                        .find(|(n, _)| n.as_print_str().eq_ignore_ascii_case("x-seq"))
-                        .map(|(_, v)| v.to_string())
-                        .unwrap_or_default();
-                    delivered.push((clock.now_ms(), marker.clone(), m.generation));
-                    let keep = keep_of.get(&marker).copied().unwrap_or(false);
-                    if msg_gen.get(&marker) != Some(&m.generation) {
-                        // arrived on a connection the history has moved away from
-                        drop(req);
-                        continue;
-                    }
-                    if keep && m.alive {
-                        handles.push(req.tp_info.transport.clone());
-                        m.handles += 1;
-                        m.unused_since = None;
-                    } else if m.alive && m.handles == 0 {
-                        // traffic on an unreferenced connection restarts the idle period
-                        m.unused_since = Some(t);
-                    }
-                    drop(req);
-                }
+                // deliveries: the application layer starts to work on a request, or the test task keeps or
+                // releases the handle that came with it
+                absorb(t, &app, &mut rx, &mut m, &mut handles, &mut delivered, &mut facts);
+                m.unsettled_busy = 0;
                 m.msg_unsettled = false;
                 settle().await;
                 let count = endpoint.verif_counts().1;
-                let others = others_open(main_id, &inbound_conns, &probe);
+                let others = others_open(main_id, &dead_ids, &inbound_conns, &probe);
                 let count_main = count.saturating_sub(others);
                 steps.push(format!("{t}ms {op:?} -> handles={} alive={} managed={count} (other open connections {others})", m.handles, m.alive));
                 // registered while referenced
@@ -1056,10 +1366,13 @@ pub fn check(case: &Case, out: &mut CaseOut) {
         }
         let had_handles = !handles.is_empty();
         handles.clear();
+        // whatever the application layer still works on is let go of when that work is done
+        app.lock().winding_down = true;
         settle().await;
         if m.alive && !m.ambiguous {
             if had_handles || m.unused_since.is_none() {
-                m.unused_since = Some(t);
+                let last_done = m.inflight.iter().map(|f| f.done_at).max();
+                m.unused_since = Some(last_done.map_or(t, |d| d.max(t)));
                 m.frag_times.clear();
             }
             m.expect_eof = m.candidates();
@@ -1071,6 +1384,21 @@ pub fn check(case: &Case, out: &mut CaseOut) {
         }
         clock.advance(3 * IDLE).await;
         settle().await;
+        // deliveries that began after the last op (a stack that hands on a message later than it arrived: when a
+        // message is delivered is not asserted): the application let go of such a request when its work was done,
+        // which is the last use of the connection then
+        let late = std::mem::take(&mut app.lock().started);
+        for (at, marker) in late {
+            delivered.push((at, marker.clone(), m.generation));
+            let (busy, gen) = {
+                let a = app.lock();
+                (a.busy_of.get(&marker).copied().unwrap_or(0), a.gen_of.get(&marker).copied())
+            };
+            if gen == Some(m.generation) && !m.expect_eof.is_empty() && m.unused_since.map_or(false, |u| at + busy > u) {
+                m.unused_since = Some(at + busy);
+                m.expect_eof = m.candidates();
+            }
+        }
         let mut all_eof = vec![];
         for p in inbound_conns.iter() {
             all_eof.push((p.id, *p.eof_at.lock()));
@@ -1174,9 +1502,47 @@ pub fn check(case: &Case, out: &mut CaseOut) {
     if model.disputed {
         out.class("op-between-the-two-readings-of-traffic(unasserted)");
     }
+    if facts.busy_started {
+        out.class("application-layer-busy-with-request");
+    }
+    if facts.busy_handed_over {
+        out.class("busy:request-handed-on-and-handle-kept-afterwards");
+    }
+    if facts.idle_starts_at_layer_release {
+        out.class("busy:idle-period-starts-when-the-layer-lets-go");
+    }
+    if facts.close_while_busy {
+        out.class("busy:peer-close-meanwhile");
+    }
+    if facts.garbage_while_busy {
+        out.class("busy:garbage-meanwhile");
+    }
+    if facts.app_handles_gone_while_busy {
+        out.class("busy:application-handles-released-meanwhile");
+    }
+    if facts.message_while_busy {
+        out.class("busy:another-message-meanwhile");
+    }
+    if facts.fragment_while_busy {
+        out.class("busy:fragment-meanwhile");
+    }
+    if facts.select_while_busy {
+        out.class("busy:select-meanwhile");
+    }
+    if facts.select_closed_while_busy {
+        out.class("busy:select-after-close-while-still-busy");
+    }
+    let busy = facts.close_while_busy
+        || facts.garbage_while_busy
+        || facts.app_handles_gone_while_busy
+        || facts.message_while_busy
+        || facts.fragment_while_busy
+        || facts.select_while_busy
+        || facts.select_closed_while_busy
+        || facts.idle_starts_at_layer_release;
     let reselect = facts.reselect_reused || facts.reselect_connected;
     let fragment = !facts.fragment_while_unreferenced.is_empty() || facts.keepalive_while_unreferenced || model.fragment_pending_at_expiry;
-    if race || edge || model.pickup_with_message_ever || model.pickup_with_close_ever || !facts.probe_while_unreferenced.is_empty() || reselect || fragment {
+    if race || edge || model.pickup_with_message_ever || model.pickup_with_close_ever || !facts.probe_while_unreferenced.is_empty() || reselect || fragment || busy {
         out.nontrivial(case);
     }
 
@@ -1245,24 +1611,27 @@ pub fn property() -> Property {
     Property {
         fuzz: vec![],
         id: "C15",
-        rule: "a case = one mock connection under test (outbound via a mock factory + select_transport, or inbound via a mock listener) and a history of 1..8 ops {clone handle, drop handle, drop all, inbound message (application keeps / releases the handle that comes with it), peer close, garbage bytes, select_transport to the same remote (handle kept), touch = select_transport to the same remote + release of the handle with no scheduling point in between, probe = select_transport for a target the connection must not serve (sips: on the same address, other port, other host; handle released at once), partial = the peer writes the beginning of a request (10 bytes / 90 bytes / head without the empty line / head without body / head and half the body) or CRLF CR or a lone CR and stops (the next message op writes the rest, a further partial half of the rest), keep-alive = a whole CRLF CRLF} with gaps from {0 (same instant, no scheduling point: all ops of an instant are pending when the connection's task is polled), 1, 100, 16000, 32000-3, 32000-1, 32000+1, 32000+3, 64000} ms under a paused clock and a tokio select seed. race sub-check enumerates the race named by the property (last handle dropped and a message in the same instant, both orders, around idle periods on the 32 s edge) under 64 (thorough 256) select seeds. pickup sub-check enumerates an idle outbound connection picked up and released between two polls of its task together with message(s) / peer close / garbage in the same instant (7 shapes with a message x keep, 2 without, x idle time before x 32 s -3/+3 ms after) under 32 (thorough 256) select seeds. probe sub-check enumerates selections for the three other targets, once and every 20 s, while the connection is idle / silent / referenced. reselect sub-check enumerates the release of the last handle (5 ways) and a select_transport to the same remote in the same instant with no scheduling point in between (5 continuations of the instant), the handle then held across 32 s +3 ms, a message, another 32 s -3/+3 ms, released, selected again, under 8 (thorough 64) select seeds. fragment sub-check enumerates 7 fragments + whole keep-alive x {accepted and silent, accepted and released, outbound and released, still referenced and released 100 ms later} x arrival 1 ms / 16 s / 32 s -3 ms into the idle period x {nothing, rest, another piece, peer close, pick-up held 64 s then rest, selection 64 s later}. Oracle = lifecycle reference model: registered while referenced; delivered exactly once while alive; closed 32 s after last use (selections for other targets are no use); unregistered at once on peer close / framing error and never selected afterwards; live outbound connection reused; inbound connections never selected; a connection the history moved away from still expires 32 s after its own last use; a selection in the instant of the last release may reuse or reconnect, the connection it returns is referenced from then on; with bytes that are no whole message the close is accepted 32 s after the last use or 32 s after any later such arrival, and is due after the last of these. Non-trivial = a selection in the instant of the last release, or a fragment / keep-alive on an unreferenced connection, or an idle period ending with a fragment in the read buffer, or a drop-last and a message within 1 ms, or an event within 3 ms of a 32 s edge, or a pick-up + release of an unreferenced connection sharing its instant with a message / close, or a probe while the connection is unreferenced.",
+        rule: "a case = one mock connection under test (outbound via a mock factory + select_transport, or inbound via a mock listener) and a history of 1..8 ops {clone handle, drop handle, drop all, inbound message (application keeps / releases the handle that comes with it), peer close, garbage bytes, select_transport to the same remote (handle kept), touch = select_transport to the same remote + release of the handle with no scheduling point in between, probe = select_transport for a target the connection must not serve (sips: on the same address, other port, other host; handle released at once), partial = the peer writes the beginning of a request (10 bytes / 90 bytes / head without the empty line / head without body / head and half the body) or CRLF CR or a lone CR and stops (the next message op writes the rest, a further partial half of the rest), keep-alive = a whole CRLF CRLF; an inbound message carries the time the application layer works on it inside Layer::receive before it lets go of the request / hands it on to be kept: 0 (most), 1, 100, 5000, 16000, 32003, 40000 ms, the history goes on meanwhile} with gaps from {0 (same instant, no scheduling point: all ops of an instant are pending when the connection's task is polled), 1, 100, 16000, 32000-3, 32000-1, 32000+1, 32000+3, 64000} ms under a paused clock and a tokio select seed. race sub-check enumerates the race named by the property (last handle dropped and a message in the same instant, both orders, around idle periods on the 32 s edge) under 64 (thorough 256) select seeds. pickup sub-check enumerates an idle outbound connection picked up and released between two polls of its task together with message(s) / peer close / garbage in the same instant (7 shapes with a message x keep, 2 without, x idle time before x 32 s -3/+3 ms after) under 32 (thorough 256) select seeds. probe sub-check enumerates selections for the three other targets, once and every 20 s, while the connection is idle / silent / referenced. reselect sub-check enumerates the release of the last handle (5 ways) and a select_transport to the same remote in the same instant with no scheduling point in between (5 continuations of the instant), the handle then held across 32 s +3 ms, a message, another 32 s -3/+3 ms, released, selected again, under 8 (thorough 64) select seeds. fragment sub-check enumerates 7 fragments + whole keep-alive x {accepted and silent, accepted and released, outbound and released, still referenced and released 100 ms later} x arrival 1 ms / 16 s / 32 s -3 ms into the idle period x {nothing, rest, another piece, peer close, pick-up held 64 s then rest, selection 64 s later}. busy sub-check enumerates a request the application layer works on for 5 s / 40 s x {outbound, accepted} x {application holds a handle of its own, or not} x keep x what happens 100 ms after the arrival {nothing, peer close, garbage, own handles released, another message, another message + peer close, handles released + peer close, beginning of a message, another message worked on for 5 s, pick-up + release} x {selection 1 s later (still busy), selection 1 s after the work, message + selection 32 s -3/+3 ms after the layer let go, nothing} under 4 (thorough 32) select seeds. Oracle = lifecycle reference model: a request the application layer works on holds a handle from the instant the layer was called (read back) until it lets go, the layer's release can be the last use; registered while referenced; delivered exactly once while alive; closed 32 s after last use (selections for other targets are no use); unregistered at once on peer close / framing error and never selected afterwards; live outbound connection reused; inbound connections never selected; a connection the history moved away from still expires 32 s after its own last use; a selection in the instant of the last release may reuse or reconnect, the connection it returns is referenced from then on; with bytes that are no whole message the close is accepted 32 s after the last use or 32 s after any later such arrival, and is due after the last of these. Non-trivial = a selection in the instant of the last release, or a fragment / keep-alive on an unreferenced connection, or an idle period ending with a fragment in the read buffer, or a drop-last and a message within 1 ms, or an event within 3 ms of a 32 s edge, or a pick-up + release of an unreferenced connection sharing its instant with a message / close, or a probe while the connection is unreferenced, or something happening on the connection while the application layer works on a request (peer close, garbage, release of the application's handles, message, fragment, selection), or an idle period that starts with the layer's release.",
         assumptions: vec![
             "events exactly on the 32 s edge (within 2 ms) stop the comparison (tie is a don't-care)",
             "a peer close / framing error only has to be known after a scheduling point (settle) following it; in every other state select_transport is called with whatever is pending. Reuse is demanded whenever the connection is alive, except in the instant its last handle was released (before the stack ran): there reuse and reconnect are both accepted",
             "'32 s without traffic': bytes that are no whole message (fragment of a request, CRLF keep-alive) may or may not count as traffic; a history with an op between the two resulting expiry instants is not judged",
             "while an outbound connection the history moved away from alive can still be idle (32 s), selections to the remote are left out (which of two live connections is picked is unspecified and depends on hash map order)",
             "garbage is only sent between messages (behind a fragment it would be read as part of the message)",
+            "the application layer takes the request at once and then awaits (tokio sleep under the paused clock) for the generated time; the instant it was called is read back from the layer, so when ezk hands a message to the layers is not asserted; the end of the work and an op in the same ms are accepted in both orders; after the history the layer lets go of everything it works on when that work is done",
+            "a connection the peer closed / sent garbage on is not counted as registered when the managed-transport count is attributed (a request still being worked on can keep ezk's end open, so the peer sees no EOF)",
             "the peer observes the close as EOF on the in-memory duplex pipe",
             "only a non-secure (TCP) factory is registered: a sips: target has no transport and select_transport may refuse it; what a probe returns is not judged",
             "managed-transport count is attributed to the connection under test after subtracting the other connections of the case the peer has not seen closed (nobody holds handles on those)",
         ],
-        explanation: "race, pickup, probe, reselect and fragment sub-checks exhaustive over their small products x seeds; random histories sampled",
+        explanation: "race, pickup, probe, reselect, fragment and busy sub-checks exhaustive over their small products x seeds; random histories sampled",
         subs: vec![
             enum_sub("race", race_cases, check),
             enum_sub("pickup", pickup_cases, check),
             enum_sub("probe", probe_cases, check),
             enum_sub("reselect", reselect_cases, check),
             enum_sub("fragment", fragment_cases, check),
+            enum_sub("busy", busy_cases, check),
             prop_sub("history", strategy, 1500, 30000, check),
         ],
     }
